@@ -94,7 +94,7 @@ theorem Sealed_arithSub {x y r : Expr} (hx : Sealed x) (hy : Sealed y) (h : arit
     Sealed r := by
   unfold arithSub at h
   split at h
-  · cases h; exact hy
+  · exact Sealed_arithNeg h
   · obtain ⟨ny, hny, h⟩ := bind_eq_ok.mp h
     exact Sealed_arithAdd hx (Sealed_arithNeg hny) h
   · obtain ⟨ny, hny, h⟩ := bind_eq_ok.mp h
